@@ -176,8 +176,9 @@ def writeData (k : Kind) (c : Cfg) (eo : EOff) (uoff : Nat) (x : WExpr) : Out By
 
 /-- `let marker = !0 >> (64 - address_size * 8);` — `address_size: u8`, so the shift amount is
 computed in `u8`: for sizes outside 1..8 the expression overflows (panic with overflow checks,
-wrapped otherwise; `write_udata(marker, size)` then rejects the size in any case). Since
-`Unit::write` rejects those sizes up front this is unreachable through the public API. -/
+wrapped otherwise; `write_udata(marker, size)` then rejects the size in any case). It is computed
+once, before the first list of a non-empty table (repo fix 58a3924). Since `Unit::write` rejects
+those sizes up front the overflow is unreachable through the public API. -/
 def marker (m : Mode) (size : Nat) : Out Nat :=
   if 1 ≤ size ∧ size ≤ 8 then .ok (2 ^ (8 * size) - 1)
   else match m with
@@ -204,16 +205,17 @@ def writeAddrPair (k : Kind) (c : Cfg) (eo : EOff) (uoff : Nat) (b e : Addr) (x 
   let d ← writeData k c eo uoff x
   pure (b1 ++ b2 ++ d)
 
-/-- one entry of `write_ranges` / `write_loc`; the state is `have_base_address` -/
-def writeEntryBare (m : Mode) (k : Kind) (c : Cfg) (eo : EOff) (uoff : Nat) (haveBase : Bool) :
+/-- one entry of `write_ranges` / `write_loc`; `mk` is the all-ones `marker`, the state is
+`have_base_address`. An entry whose `begin` equals the marker would be read as a base address
+selection: it is rejected with `InvalidRange`, like an empty range (repo fix 58a3924). -/
+def writeEntryBare (mk : Nat) (k : Kind) (c : Cfg) (eo : EOff) (uoff : Nat) (haveBase : Bool) :
     WEntry → Out (Bytes × Bool)
   | .baseAddress a => do
-    let mk ← marker m c.addrSize
     let b1 ← writeUdata c.endian mk c.addrSize
     let b2 ← writeAddress c a
     pure (b1 ++ b2, true)
   | .offsetPair b e x =>
-    if b = e then .err .wInvalidRange
+    if b = e ∨ b = mk then .err .wInvalidRange
     else if haveBase = false then .err .wMissingBaseAddress
     else do
       let b1 ← writeUdata c.endian b c.addrSize
@@ -221,14 +223,14 @@ def writeEntryBare (m : Mode) (k : Kind) (c : Cfg) (eo : EOff) (uoff : Nat) (hav
       let d ← writeData k c eo uoff x
       pure (b1 ++ b2 ++ d, haveBase)
   | .startEnd b e x =>
-    if b = e then .err .wInvalidRange
+    if b = e ∨ b = .const mk then .err .wInvalidRange
     else if haveBase = true then .err .wUnexpectedBaseAddress
     else do
       let bs ← writeAddrPair k c eo uoff b e x
       pure (bs, haveBase)
   | .startLength b len x => do
     let e ← endOf b len
-    if b = e then .err .wInvalidRange
+    if b = e ∨ b = .const mk then .err .wInvalidRange
     else if haveBase = true then .err .wUnexpectedBaseAddress
     else do
       let bs ← writeAddrPair k c eo uoff b e x
@@ -242,12 +244,12 @@ def writeTermBare (c : Cfg) : Out Bytes := do
   pure (z1 ++ z2)
 
 /-- the entries of one list -/
-def writeEntriesBare (m : Mode) (k : Kind) (c : Cfg) (eo : EOff) (uoff : Nat) :
+def writeEntriesBare (mk : Nat) (k : Kind) (c : Cfg) (eo : EOff) (uoff : Nat) :
     Bool → WList → Out Bytes
   | _, [] => writeTermBare c
   | hb, x :: xs => do
-    let (bs, hb') ← writeEntryBare m k c eo uoff hb x
-    let rest ← writeEntriesBare m k c eo uoff hb' xs
+    let (bs, hb') ← writeEntryBare mk k c eo uoff hb x
+    let rest ← writeEntriesBare mk k c eo uoff hb' xs
     pure (bs ++ rest)
 
 /-! ## DWARF 5: `write_rnglists` / `write_loclists` -/
@@ -313,8 +315,9 @@ def initialLengthSize : Format → Nat
 def writeTable (m : Mode) (k : Kind) (c : Cfg) (eo : EOff) (uoff : Nat) (unitBase : Bool)
     (start : Nat) (tbl : List WList) : Out (Bytes × List Nat) :=
   if tbl.isEmpty then .ok ([], [])     -- `…ListOffsets::none()`
-  else if 2 ≤ c.version ∧ c.version ≤ 4 then
-    writeLists (writeEntriesBare m k c eo uoff unitBase) start tbl
+  else if 2 ≤ c.version ∧ c.version ≤ 4 then do
+    let mk ← marker m c.addrSize
+    writeLists (writeEntriesBare mk k c eo uoff unitBase) start tbl
   else if c.version = 5 then do
     let hdr := initialLengthSize c.format + 8
     let (body, offs) ← writeLists (writeEntriesCoded k c eo uoff) (start + hdr) tbl
